@@ -92,4 +92,61 @@ def onInst (i : Nat) : Op → Bool
 def outputsOf (i : Nat) (tr : List (Op × List α)) : List (List α) :=
   (tr.filter (fun e => onInst i e.1)).map (·.2)
 
+/-- is the operation a read of `scrn` / `repr`? -/
+def isRead : Op → Bool
+  | .read _ => true
+  | _ => false
+
+/-! ### A LAZY variant (counter-model; not the library's behaviour)
+
+A seeded change of the library generated the initial screen lazily, on the first access of the screen, i.e. AFTER the draws of the
+first row when the caller had not looked at the screen before its first `add_row`.  `stepLazy` models that variant: `create` stores the
+seeded generator and the number `n0` of initial values still to be drawn (`some n0`) without drawing; `read` draws the pending initial
+screen; `addRow` draws the ROW's values first and the pending initial screen after them.  The eager definitions above are what the
+property is about; the lazy ones exist so that `Props/C06.lazy_init_is_read_sensitive` can show that `reads_do_not_matter` is not a
+triviality of the modelling style. -/
+
+/-- world of the lazy variant: an instance is its generator state and the pending size of its initial screen -/
+structure LazyWorld (σ : Type) where
+  inst : Nat → Option (σ × Option Nat)
+  glob : σ
+
+/-- draw the pending initial screen, if any: new generator state and the values drawn -/
+def flush (next : σ → σ × α) : σ × Option Nat → σ × List α
+  | (s, none) => (s, [])
+  | (s, some n0) => draw next n0 s
+
+/-- one operation of the lazy variant.  Output: the values the operation drew for what it produces — `read`: the initial screen when it
+is drawn here; `addRow`: the row's values (drawn BEFORE a pending initial screen, as in the seeded change) -/
+def stepLazy (seedGen : Nat → σ) (next : σ → σ × α) (w : LazyWorld σ) : Op → LazyWorld σ × List α
+  | .create i seed n =>
+      ({ w with inst := fun j => if j = i then some (seedGen seed, some n) else w.inst j }, [])
+  | .addRow i n =>
+      match w.inst i with
+      | none => (w, [])
+      | some (s0, pending) =>
+          let (s1, out) := draw next n s0
+          let (s2, _) := flush next (s1, pending)
+          ({ w with inst := fun j => if j = i then some (s2, none) else w.inst j }, out)
+  | .read i =>
+      match w.inst i with
+      | none => (w, [])
+      | some st =>
+          let (s1, out) := flush next st
+          ({ w with inst := fun j => if j = i then some (s1, none) else w.inst j }, out)
+  | .finite seed n => (w, (draw next n (seedGen seed)).2)
+  | .globalSeed s => ({ w with glob := seedGen s }, [])
+  | .globalDraw n =>
+      let (s, out) := draw next n w.glob
+      ({ w with glob := s }, out)
+  | .other => (w, [])
+
+/-- run a history of the lazy variant, collecting `(operation, output)` -/
+def runLazy (seedGen : Nat → σ) (next : σ → σ × α) : LazyWorld σ → List Op → LazyWorld σ × List (Op × List α)
+  | w, [] => (w, [])
+  | w, op :: ops =>
+      let (w1, out) := stepLazy seedGen next w op
+      let (w2, rest) := runLazy seedGen next w1 ops
+      (w2, (op, out) :: rest)
+
 end AoVerif.Rng
